@@ -170,7 +170,8 @@ func (s *standIn) server() {
 			case "silent":
 			case "ack":
 				o.Log("ack-begin conn1 step=%d", vsched.Step())
-				s.eng.NotifyAcks([]int64{m.msgID})
+				// servers batch acknowledgements: ids of already finished requests may precede ours
+				s.eng.NotifyAcks([]int64{s.inbox[0].msgID, m.msgID})
 				o.Log("ack-done conn1 step=%d", vsched.Step())
 				s.w.ackDone = true
 			case "answer":
